@@ -288,9 +288,12 @@ def check_source(text, case, ctx, active, prog=None, spans=None, classes=()):
     # ---- (ii) valid nodes verbatim, in order, adjacent
     for kind, detail in ce.verbatim_check(sf, text, cons) + ce.inline_repeats(sf, cons):
         ctx.fail(f'C03:{kind}', case, detail)
+    present = ce.markers_in_ir(sf)
     for r in applied:
         m = r.get('marker')
-        if m:
+        if m and m not in present:
+            ctx.count('marker-removed-by-a-later-edit')      # e.g. replace of the loop a PRINT was inserted into
+        elif m:
             n = sum(1 for ln in cons.split('\n') if ln.rstrip().endswith(m) or ln.rstrip().endswith(m + "'"))
             if n == 0:
                 ctx.fail('C03:edit-not-in-output', case, f"{r['op']} in {r['unit']}: marker {m!r} missing")
